@@ -38,6 +38,12 @@ LEVEL_NOTE = "trusted: the rod's primal routines (h, c, g, W_c, W_g, q_dot, r_OP
 @st.composite
 def _case(draw):
     rs = draw(rodbuild.rod_spec(max_nel=3))
+    if draw(st.integers(0, 7)) == 0:
+        # a finer mesh: element boundaries k / nelement that are not exactly the knots np.linspace produces
+        rs["nel"] = draw(st.sampled_from([5, 10, 11, 13]))
+        rs["degree"] = 1
+        if "helix" in rs:
+            rs["helix"]["angle"] = min(rs["helix"]["angle"], 1.5)
     n = rodbuild.nnodes(rs)
     el = draw(st.integers(0, rs["nel"] - 1))
     return {
@@ -51,6 +57,8 @@ def _case(draw):
         "node": draw(st.integers(0, n - 1)),
         "xi_int": (el + draw(gen.f(0.05, 0.95))) / rs["nel"],
         "B_r_CP": draw(gen.vec3(-2, -0.3)),
+        # the system is assembled a second time before it is evaluated (as set_new_initial_state does)
+        "assemble_twice": draw(st.integers(0, 3)) == 0,
     }
 
 
@@ -77,6 +85,8 @@ def check(spec):
     D = sysbuild.dense
     rs = spec["rod"]
     system, rod, Q = c10.build(rs)
+    if spec.get("assemble_twice"):
+        sysbuild.assemble(system)
     site = rodbuild.formulation_name(rs)
     feats = {"formulation": site, "degree": rs["degree"], "nel": rs["nel"]}
     n = rodbuild.nnodes(rs)
